@@ -217,7 +217,7 @@ def run_body_factory(name, N, G, seed, objective="std"):
                         viol.append(("C18:run:pbest-not-updated:%s" % name, "position %r not dominated by best %r but not taken" % (pos, b)))
             alg.update_particle_best = wrapped_pb
         problem, alg, exc = run_algorithm(name, ctx, seed, N, G, n_params=2, n_costs=2, bounds=[[0.0, 1.0], [-2.0, 2.0]],
-                                          prepare=prepare, shim_cfg={"extreme_values": True}, g=g, before=before,
+                                          prepare=prepare, shim_cfg={"extreme_values": True, "max_draws": max(5000, 300 * N * (G + 1))}, g=g, before=before,
                                           f=tradeoff if base_obj == "tradeoff" else None)
         desc = "%s N=%d G=%d objective=%s" % (name, N, G, objective)
         # state invariant after the run, whichever route the algorithm took to maintain the personal bests: no recorded
